@@ -47,6 +47,8 @@ class PolicyChooser:
             i = self.rng.randrange(n)
         elif kind == "lowest":
             i = 0
+        elif kind == "highest":
+            i = n - 1
         elif kind == "rr":
             self.rr += 1
             i = self.rr % n
@@ -90,7 +92,10 @@ def draw_policy(rng, n_workers):
         return {"kind": "sticky", "p": rng.choice([0.5, 0.8, 0.95])}
     if r < 0.90:
         lo = rng.randrange(0, 60)
-        return {"kind": "starve", "victim": rng.randrange(1, n_workers + 2), "window": [lo, lo + rng.randrange(20, 400)]}
-    if r < 0.95:
+        # victim: 0 = the collecting main process, 1 = the reader, 2.. = workers
+        return {"kind": "starve", "victim": rng.randrange(0, n_workers + 2), "window": [lo, lo + rng.randrange(20, 400)]}
+    if r < 0.94:
         return {"kind": "rr"}
+    if r < 0.97:
+        return {"kind": "highest"}
     return {"kind": "lowest"}
